@@ -415,20 +415,27 @@ func mappingFreeBufferList(mem []byte, offset uint32) (*bufferList, error) {
 }
 
 func (b *bufferList) pop() (*bufferSlice, error) {
+	vg := vpPopBegin(b)
 	oldHead := atomic.LoadUint32(b.head)
 	remain := atomic.AddInt32(b.size, -1)
 	if remain <= 0 {
 		atomic.AddInt32(b.size, 1)
 		return nil, ErrNoMoreBuffer
 	}
+	vp(vpPopReserved)
 	//when data races occurred, max retry 200 times.
 	for i := 0; i < 200; i++ {
+		vp(vpPopLoopTop)
 		bh := bufferHeader(b.bufferRegion[oldHead : oldHead+bufferHeaderSize])
 		if bh.hasNext() {
+			vp(vpPopHasNext)
 			if atomic.CompareAndSwapUint32(b.head, oldHead, bh.nextBufferOffset()) {
+				vpPopWon(b, oldHead, vg)
 				h := bufferHeader(b.bufferRegion[oldHead : oldHead+bufferHeaderSize])
 				h.clearFlag()
+				vp(vpPopCleared)
 				h.setInUsed()
+				vp(vpPopInUsed)
 				atomic.AddInt32(b.counter, 1)
 				return newBufferSlice(h,
 					b.bufferRegion[oldHead+bufferHeaderSize:oldHead+bufferHeaderSize+*b.capPerBuffer],
@@ -441,6 +448,7 @@ func (b *bufferList) pop() (*bufferSlice, error) {
 				return nil, ErrNoMoreBuffer
 			}
 		}
+		vg = vpPopReload(b)
 		oldHead = atomic.LoadUint32(b.head)
 	}
 	atomic.AddInt32(b.size, 1)
@@ -449,11 +457,15 @@ func (b *bufferList) pop() (*bufferSlice, error) {
 
 func (b *bufferList) push(buffer *bufferSlice) {
 	buffer.reset()
+	vp(vpPushReset)
 	for {
 		oldTail := atomic.LoadUint32(b.tail)
+		vp(vpPushLoadedTail)
 		newTail := buffer.offsetInShm - b.bufferRegionOffsetInShm
 		if atomic.CompareAndSwapUint32(b.tail, oldTail, newTail) {
+			vp(vpPushCASed)
 			bufferHeader(b.bufferRegion[oldTail : oldTail+bufferHeaderSize]).linkNext(newTail)
+			vp(vpPushLinked)
 			atomic.AddInt32(b.size, 1)
 			atomic.AddInt32(b.counter, -1)
 			return
